@@ -259,3 +259,48 @@ func c05GrantFallback(prop string) {
 //verif:bounds as VH_C05_grant_fallback_exact_user_and_key_once
 //verif:cover granted;refused;disabled
 func VH_C07_stored_grants_keep_their_fields_and_go_to_their_key_once() { c05GrantFallback("C07") }
+
+// Histories on ONE running server: what a login decides depends on the
+// authorized_keys file as it is NOW - a key that was listed at an earlier login
+// and has since been removed (or whose file has become unreadable or
+// malformed) is refused. Nothing an earlier login saw may widen access later.
+//
+//verif:prop C05
+//verif:stub hop.computer/hop/config.UserDirectoryFor = c05UserDirectoryFor
+//verif:stub hop.computer/hop/core.ParseAuthorizedKeys = c05ParseAuthorizedKeys
+//verif:replay none
+//verif:bounds two consecutive logins of the same user on one server; first: file lists 1 symbolic key, login with that key or another one; then the file changes arbitrarily (0..2 symbolic keys; lookup / open / parse may now fail); second login with a symbolic key
+//verif:cover second-granted;second-refused;revoked-key-refused
+func VH_C05_a_login_is_decided_by_the_file_as_it_is_now() {
+	s := &HopServer{fsystem: c05FS{}, config: &config.ServerConfig{}}
+	first := c05Key("listed-at-first-login")
+	c05.keys = core.AuthorizedKeys{first}
+	pk1 := first
+	if verifBool("first-login-with-another-key") {
+		pk1 = c05Key("first-client-key")
+	}
+	_ = s.AuthorizeKey("alice", pk1)
+	// the file changes
+	c05.lookupFails, c05.openFails, c05.parseFails = verifBool("lookup-fails"), verifBool("open-fails"), verifBool("parse-fails")
+	c05.keys = nil
+	n := verifPick("listed-keys-now", 0, 1, 2)
+	for i := 0; i < n; i++ {
+		c05.keys = append(c05.keys, c05Key("listed-now"))
+	}
+	pk := c05Key("client-key")
+	err := s.AuthorizeKey("alice", pk)
+	listed := false
+	for _, k := range c05.keys {
+		listed = verifOr(listed, k == pk)
+	}
+	should := verifAnd(verifAnd(!c05.lookupFails, !c05.openFails), verifAnd(!c05.parseFails, listed))
+	verifAssert((err == nil) == should, "C05: a login is granted iff the authorized_keys file, as it is at that login, opens, parses completely and lists the key (a key removed since an earlier login is refused)")
+	if err == nil {
+		verifCover("second-granted")
+	} else {
+		verifCover("second-refused")
+		if pk == first {
+			verifCover("revoked-key-refused")
+		}
+	}
+}
